@@ -74,7 +74,17 @@ TREES = trees()
 NAMES = list(TREES)
 
 
+def mutated(recipe):
+    """The same tree with other holders, years and licences in every text (headers, .license files, REUSE.toml, dep5)."""
+    def m(v):
+        return v.replace("2020", "1987").replace("Jane", "Zed").replace("MIT", "ISC") if isinstance(v, str) else v
+    return {p: m(v) for p, v in recipe.items()}
+
+
 def populate(name, root):
+    if name.endswith("~mutated"):
+        materialise(root, mutated(TREES[name[:-len("~mutated")]]))
+        return
     materialise(root, TREES[name])
     if name == "git":
         gitrepo.init(root, add=False)
@@ -199,7 +209,7 @@ def bounds(tier, seed):
     return {"trees": NAMES, "schedules": "every chunk size 1..n x {forward, reverse, every rotation} of chunk execution order (n = number of jobs)",
             "listing": "every permutation of every directory with <= 4 entries (complete product when <= 600 (quick) / 5000 (thorough) combinations, else <= 2 deviating directories)",
             "hash_seeds": list(range(0, 64 if tier == "quick" else 512))[:3] + ["..."], "n_hash_seeds": 64 if tier == "quick" else 512,
-            "cwds": CWDS, "root_spellings": SPELLINGS, "root_directory_names": ["proj"] + ROOTNAMES, "real_pool_runs": "1 per tree (free-running, sampling, reported separately)"}
+            "relint": "every ordered pair of trees on one path in one process", "cwds": CWDS, "root_spellings": SPELLINGS, "root_directory_names": ["proj"] + ROOTNAMES, "real_pool_runs": "1 per tree (free-running, sampling, reported separately)"}
 
 
 def cases(tier, seed):
@@ -215,6 +225,17 @@ def cases(tier, seed):
             for sp in SPELLINGS:
                 yield {"k": "cwd", "tree": name, "cwd": cwd, "spelling": sp}
         yield {"k": "realpool", "tree": name}
+    for a in NAMES:
+        for b in NAMES:
+            if b == "git-submodule":
+                continue   # its .gitmodules holds the absolute path of the upstream repository: two builds differ in content
+            yield {"k": "relint", "a": a, "b": b, "mp": False}
+            if a != b and (NAMES.index(a) + NAMES.index(b)) % 4 == 0 and "~" not in a:
+                yield {"k": "relint", "a": a, "b": b, "mp": True}
+    for b in NAMES:
+        if b not in ("git", "git-submodule"):
+            for mp in (False, True):
+                yield {"k": "relint", "a": b + "~mutated", "b": b, "mp": mp}
     for name in NAMES:
         for rn in ROOTNAMES:
             for cwd, sp in (("root", "dot"), ("root", "no-root-option"), ("outside", "relative"), ("subdir", "dotdot")):
@@ -404,7 +425,41 @@ def ev_seed(c) -> R:
     return r
 
 
-_EV = {"sched": ev_sched, "listing": ev_listing, "cwd": ev_cwd, "realpool": ev_realpool, "seed": ev_seed}
+def ev_relint(c) -> R:
+    """History on one path inside one process: tree A is linted at path P, P is emptied and refilled with tree B, and B must be reported
+    exactly as a B that is linted at a path never seen before (state keyed on a path - a cache - would make the contents' history show)."""
+    import shutil
+
+    r = R()
+    a, b = c["a"], c["b"]
+    ref_root = build(b, "c14ref")
+    kw = {"multiprocessing": True, "pool": {"chunksize": 2, "order": None}} if c["mp"] else {}
+    ref = observe(ref_root, b, **kw)
+    base = fresh_dir("c14hist")
+    root = base / "proj"
+    root.mkdir()
+    populate(a, root)
+    first = observe(root, a, **kw)
+    if first[0] == "failed":
+        raise HarnessError(f"tree {a} cannot be linted: {first}")
+    up = root.parent / (root.name + "-upstream")
+    shutil.rmtree(root)
+    if up.exists():
+        shutil.rmtree(up)
+    root.mkdir()
+    populate(b, root)
+    got = observe(root, b, **kw)
+    d = differs(got, ref)
+    if d:
+        r.violation(f"history-on-one-path|{a}->{b}", f"path first held tree {a}, then tree {b} (same process{', pool' if c['mp'] else ''}): {d}")
+    r.outcome = "relint-ok" if not d else "relint-diff"
+    r.nontrivial = a != b
+    r.evals = 6
+    r.tags.append("relint")
+    return r
+
+
+_EV = {"relint": ev_relint, "sched": ev_sched, "listing": ev_listing, "cwd": ev_cwd, "realpool": ev_realpool, "seed": ev_seed}
 
 
 def evaluate(c) -> R:
@@ -412,7 +467,7 @@ def evaluate(c) -> R:
 
 
 def vacuity(st):
-    for t in ("sched", "listing", "cwd", "seed"):
+    for t in ("sched", "listing", "cwd", "seed", "relint"):
         if st.tags.get(t, 0) < 10:
             return f"slice {t} did not run"
     return None
